@@ -32,6 +32,21 @@ func geomDesc(g geom.Geometry) Event {
 
 func envelopeGen(r *rand.Rand, n int, tier string, emit func(Case)) {
 	for i := 0; i < n; i++ {
+		if i%10 == 9 {
+			// the XY vector helpers on integer vectors (every third one a multiple of a Pythagorean triple: integer length)
+			u := []int{r.Intn(41) - 20, r.Intn(41) - 20}
+			v := []int{r.Intn(41) - 20, r.Intn(41) - 20}
+			if r.Intn(3) == 0 {
+				t := [][]int{{3, 4}, {5, 12}, {8, 15}, {-4, 3}, {0, 1}, {-1, 0}, {0, 0}}[r.Intn(7)]
+				k := 1 + r.Intn(4)
+				u = []int{k * t[0], k * t[1]}
+			}
+			if r.Intn(5) == 0 {
+				v = []int{u[0], v[1]} // equal X: the Y tie-break of Less
+			}
+			emit(Case{"kind": "xy", "u": u, "v": v, "k": r.Intn(21) - 10})
+			continue
+		}
 		l := &lgen{r: r, N: 3 + r.Intn(8)}
 		g := l.any(4)
 		c := Case{"kind": "geom", "wa": g.AsText(), "wb": l.any(5).AsText()}
@@ -59,6 +74,23 @@ func caseInts(v interface{}) []int {
 
 func envelopeExec(c Case) Event {
 	ev := envelopeOnPanic(c)
+	if c.str("kind") == "xy" {
+		ui, vi, k := caseInts(c["u"]), caseInts(c["v"]), c.num("k")
+		u, v := geom.XY{X: float64(ui[0]), Y: float64(ui[1])}, geom.XY{X: float64(vi[0]), Y: float64(vi[1])}
+		xi := func(p geom.XY) []int { return []int{li(p.X), li(p.Y)} }
+		x := Event{"kind": "xy", "u": ui, "v": vi, "k": k, "panic": "",
+			"sub": xi(u.Sub(v)), "add": xi(u.Add(v)), "scale": xi(u.Scale(float64(k))), "cross": li(u.Cross(v)), "dot": li(u.Dot(v)),
+			"mid2": xi(u.Midpoint(v).Scale(2)), "less": u.Less(v), "lessrev": v.Less(u), "len32": -1, "unit": []int{0, 0}, "unitfin": false}
+		if ln := u.Length(); finite(ln) {
+			x["len32"] = int(math.Floor(ln * 32))
+			un := u.Unit()
+			if finite(un.X) && finite(un.Y) {
+				x["unitfin"] = true
+				x["unit"] = []int{int(math.Round(un.X * ln * 1024)), int(math.Round(un.Y * ln * 1024))}
+			}
+		}
+		return x
+	}
 	if c.str("kind") == "algebra" {
 		a, b, cc := envFromCase(c["a"]), envFromCase(c["b"]), envFromCase(c["c"])
 		ev["a"], ev["b"], ev["c"] = caseInts(c["a"]), caseInts(c["b"]), caseInts(c["c"])
